@@ -70,6 +70,37 @@ def tokens_of(f):
     return toks
 
 
+def token_cast_checks(rnd, n):
+    """command-line token syntax vs Python mapping, value by value: the token spelling repr(v) of a scalar must parse back to exactly v
+    (same value, same JSON type) through parse_filter_arg and through the one-string filter form"""
+    import contextlib
+    import io
+    from signac.filterparse import parse_filter, parse_filter_arg
+    vals = [0, 1, -1, 7, 10, 2**31, 2**53 - 1, 2**53, 2**53 + 1, 2**63 + 5, -(2**63) - 7, 10**18 + 1, 123456789012345678901234567891, 0.5, -0.25, 1.0, 4.0, 1e22, 1e-7,
+            1.5e300, -0.0, 0.1, 3.14159, True, False, None, "abc", "x_y", "a.b"]
+    for _ in range(n):
+        d = rnd.randint(1, 30)
+        vals.append(rnd.randrange(10 ** (d - 1), 10 ** d) * rnd.choice((1, -1)))
+        vals.append(rnd.uniform(-1e6, 1e6))
+    out = []
+    for v in vals:
+        tok = "true" if v is True else "false" if v is False else "null" if v is None else (v if isinstance(v, str) else repr(v))
+        for how, fn in (("tokens", lambda: parse_filter_arg(["k", tok])), ("string", lambda: parse_filter("k " + tok))):
+            try:
+                with contextlib.redirect_stderr(io.StringIO()):
+                    got = fn()
+                got = dict(got) if got is not None else got
+            except Exception as e:
+                got = f"raised {type(e).__name__}: {e}"
+            ok = isinstance(got, dict) and list(got) == ["k"] and type(got["k"]) is type(v) and (got["k"] == v) and repr(got["k"]) == repr(v)
+            if not ok:
+                out.append((f"cast:{how}:{tok[:40]}", f"{how} spelling of k={v!r} ({tok!r}) parses to {got!r}: selects other jobs than the mapping {{'k': {v!r}}}"))
+                break
+        if len(out) >= 2:
+            break
+    return out, len(vals) * 2
+
+
 def run(tier="quick", seed=0):
     import signac
     from signac.filterparse import parse_filter_arg
@@ -196,6 +227,10 @@ with tempfile.TemporaryDirectory() as d:
                         failures.append({"key": f"groupby:{key!r}", "description": f"cursor {f}: " + "; ".join(probs[:2]), "script": ""})
                 if len(samples) < 2:
                     samples.append({"filter": f, "respelled": respell(rnd, f)})
+    cast_fail, ncast = token_cast_checks(rnd, 40 if tier == "quick" else 2000)
+    evals += ncast
+    for key, desc in cast_fail:
+        failures.append({"key": key, "description": desc, "script": ""})
     # probe known finding F6: groupby with a dotted (nested) key
     with project_scratch() as p:
         p.open_job({"n": {"k": 1}}).init()
@@ -207,7 +242,7 @@ with tempfile.TemporaryDirectory() as d:
             ok = False
         if not ok:
             failures.append({"key": "groupby:dotted-key", "description": "known finding F6", "script": ""})
-    return {"scope": "corpora as in C06 on real projects; every generated filter under 3 random equivalent spellings (sp. prefix, operator suffix vs nested, dotted vs nested) and, where expressible, "
+    return {"scope": "scalar token casting value by value (ints up to 30 digits incl. 2**53+1, floats, true/false/null, words) through parse_filter_arg and the one-string form; corpora as in C06 on real projects; every generated filter under 3 random equivalent spellings (sp. prefix, operator suffix vs nested, dotted vs nested) and, where expressible, "
                      "as command-line tokens; cursor len/iter/index/slice/membership; groupby by top-level sp / doc keys, tuples, None, with and without default (dotted keys: known finding F6)",
             "evaluations": evals, "distinct_nontrivial": len(distinct), "rule": "a case is one (corpus, spelling) query or one cursor/groupby observation; distinct by spelled filter",
             "samples": samples, "failures": failures}
